@@ -299,6 +299,48 @@ def rule_g(ctx):
                 problem or 'the remaining byte count shrinks by at least 1 on all %d iteration paths' % n)
 
 
+def rule_i(ctx):
+    """Byte-stream transport, receive side: every non-empty chunk read is handed to the frame parser, whole; a chunk is
+    given up only because it is empty (end of stream) - never because of something else the transport knows (EOF flag,
+    buffer state), which would make the decoded frames depend on how the bytes were split into reads."""
+    rep = ctx.report
+    c = ctx.repo.cls('rsocket.transports.tcp:TransportTCP')
+    f = c.lookup('next_frame_generator')
+    if f is None:
+        raise AnalysisError('C04.g: TransportTCP.next_frame_generator vanished')
+    ok = True
+    why = ''
+    n_parse = n_end = 0
+    for p in ctx.paths(f, c, inline_depth=1, no_inline={'receive_data'}):
+        if p.outcome != 'return':
+            continue
+        reads = [e for e in p.events if e.kind == 'call' and e.data.get('name') in ('read', 'readexactly') and
+                 e.data.get('awaited')]
+        if len(reads) != 1:
+            ok, why = False, 'a call reads %d chunks' % len(reads)
+            continue
+        chunk = ('awaited', strip_epoch(reads[0].data['value'].term))
+        parses = [e for e in p.events if e.kind == 'call' and e.data.get('name') == 'receive_data']
+        empt = [c_ for c_ in p.events if c_.kind == 'cond' and c_.data['key'][0] == 'truth' and
+                strip_epoch(c_.data['key'][1]) in (chunk, chunk[1])]
+        if parses:
+            n_parse += 1
+            a = strip_epoch(parses[0].data['args'][0].term) if parses[0].data.get('args') else None
+            if len(parses) != 1 or a not in (chunk, chunk[1]):
+                ok, why = False, 'what is handed to the frame parser is not the chunk read'
+            if strip_epoch(p.value.term) != strip_epoch(parses[0].data['value'].term):
+                ok, why = False, 'the frames decoded from the chunk are not what the transport returns'
+        else:
+            n_end += 1
+            if not empt or empt[-1].data['value'] is not False:
+                ok, why = False, ('a chunk that is not known to be empty is dropped without being parsed (line %s): '
+                                  'whether its frames are seen depends on when the bytes were read' % reads[0].line)
+    rep.add('C04.g', 'TransportTCP.next_frame_generator / every non-empty chunk goes to the parser', f,
+            ok and n_parse > 0 and n_end > 0,
+            why or 'read -> empty: end of stream | otherwise: frame_parser.receive_data(chunk) returned (%d + %d '
+                   'paths)' % (n_end, n_parse))
+
+
 def rule_h(ctx):
     """A correctly delimited but undecodable frame produces no frame or one marker: what the decoder hands back on a
     parse failure (shared C12.a; c12 imports this module, hence the late import)."""
@@ -307,4 +349,4 @@ def rule_h(ctx):
 
 
 RULES = [('C04.a', rule_a), ('C04.b', rule_b), ('C04.c', rule_c), ('C04.d', rule_d), ('C04.e', rule_e),
-         ('C04.f', rule_f), ('C12.e', rule_g), ('C12.a', rule_h)]
+         ('C04.f', rule_f), ('C12.e', rule_g), ('C12.a', rule_h), ('C04.g', rule_i)]
